@@ -35,7 +35,7 @@ func driverFuncs(c *core.Ctx) []*ssa.Function {
 }
 
 func c19(c *core.Ctx) map[string]interface{} {
-	c.Explanation = "Static error-discipline check for fail-stop (C19). Decided: (R19.exit) stgutg.ManageError, on a non-nil error, reaches os.Exit with a non-zero constant on every path and never returns; (R19.check) for every call of (*sctp.SCTPConn).Read/Write, ngap.Decoder and tglib.ConnectToAmf in the functions of main/stgutg reachable from main, every path from the call to the next I/O or decode call, to a use of a co-returned value, or to a return passes through ManageError applied to that call's own error value; (R19.norecover) no recover() in main/stgutg/tglib; (R19.banner) nothing that performs I/O follows the completion banner, and the banner is only reachable after the procedure loops. (R19.oneread) no Read of the signalling procedures (or of a helper they call) is repeated in a loop driven by the received bytes; (components) the rule set of C14 (every read of the NGAP decoder is bounds-checked against the input with a fresh cursor, so truncated or over-announcing input is refused rather than completed from stale buffer contents). NOT decided: the wall-clock bound of a blocked SCTP read (kernel behaviour)."
+	c.Explanation = "Static error-discipline check for fail-stop (C19). Decided: (R19.exit) stgutg.ManageError, on a non-nil error, reaches os.Exit with a non-zero constant on every path and never returns; (R19.check) for every call of (*sctp.SCTPConn).Read/Write, ngap.Decoder and tglib.ConnectToAmf in the functions of main/stgutg reachable from main, every path from the call to the next I/O or decode call, to a use of a co-returned value, or to a return passes through ManageError applied to that call's own error value; (R19.norecover) no recover() in main/stgutg/tglib; (R19.banner) nothing that performs I/O follows the completion banner, and the banner is only reachable after the procedure loops. (R19.oneread) no Read of the signalling procedures (or of a helper they call) is repeated in a loop driven by the received bytes; (components) the rule set of C14 (every read of the NGAP decoder is bounds-checked against the input with a fresh cursor, so truncated or over-announcing input is refused rather than completed from stale buffer contents). (how) R19.check reads the fail-stop variant of the drivers' evaluator model: the error results of Read/Write/ngap.Decoder are left open, every test of one forks the path, os.Exit ends it; on every path the error must have been found nil by the next I/O call or the return (a flag handed to a receive helper folds like any constant). (R4.align) parseAlignBits accepts only all-zero padding. NOT decided: the wall-clock bound of a blocked SCTP read (kernel behaviour)."
 	c.Assumptions = []string{
 		"os.Exit terminates the process (standard library)",
 		"a panic (e.g. nil dereference on an unexpected but decodable message) terminates the process with a non-zero status",
